@@ -1451,6 +1451,12 @@ def check_class_blind_assignment(rep):
          I().subtype(subtypeSpec=C.ConstraintsIntersection(C.ValueRangeConstraint(0, 5))), 3),
         ('ex-vs-or', I().subtype(subtypeSpec=C.ConstraintsExclusion(C.ValueRangeConstraint(0, 5))),
          I().subtype(subtypeSpec=C.ConstraintsUnion(C.ValueRangeConstraint(0, 5))), 3),
+        # operands that differ but hash alike in CPython (hash(-1) == hash(-2); integers 2**61 - 1 apart)
+        ('hash-minus1-minus2-range', I().subtype(subtypeSpec=C.ValueRangeConstraint(-1, 4)), I().subtype(subtypeSpec=C.ValueRangeConstraint(-2, 4)), -2),
+        ('hash-minus1-minus2-single', I().subtype(subtypeSpec=C.SingleValueConstraint(-1, 4)), I().subtype(subtypeSpec=C.SingleValueConstraint(-2, 4)), -2),
+        ('hash-mersenne-range', I().subtype(subtypeSpec=C.ValueRangeConstraint(0, 5)), I().subtype(subtypeSpec=C.ValueRangeConstraint(0, 5 + 2 ** 61 - 1)), 77),
+        ('hash-mersenne-nested', I().subtype(subtypeSpec=C.ConstraintsIntersection(C.ValueRangeConstraint(0, 9), C.ConstraintsExclusion(C.SingleValueConstraint(3)))),
+         I().subtype(subtypeSpec=C.ConstraintsIntersection(C.ValueRangeConstraint(0, 9), C.ConstraintsExclusion(C.SingleValueConstraint(3 + 2 ** 61 - 1)))), 3),
         ('size-sv-vs-vs', univ.OctetString().subtype(subtypeSpec=C.ValueSizeConstraint(1, 3)),
          univ.OctetString().subtype(subtypeSpec=C.ValueSizeConstraint(1, 30)), b'abcdefgh'),
     ]
